@@ -181,6 +181,31 @@ Theorem C07_agree_sound ops observed : c07 ops observed = Agree ->
 Proof. exact (agree_sound ops observed). Qed.
 Print Assumptions C07_agree_sound.
 
+(* ---------- long-lived view objects (second pass of the harness) ---------- *)
+
+(* the long-lived oracle — [ok_step] where the raw dump is shown, the answer and the raw store the
+   property demands where it is withheld — accepts EVERY well-shaped partial view of the mechanism
+   model's own output: whatever the script, whichever dumps are withheld between operations on one view *)
+Theorem C07_model_ok_ll ops obs : ll_shape ops obs = true ->
+  first_diff_ll (run_model [] ops) obs 0 = None -> oracle_ll [] ops obs 0 = None.
+Proof. exact (model_ok_ll ops obs). Qed.
+Print Assumptions C07_model_ok_ll.
+
+(* ... in particular, for ALL scripts, the model's output with the dumps withheld the way the harness
+   withholds them (maximal runs of consecutive operations on one view share one object) *)
+Theorem C07_model_ok_runs ops : oracle_ll [] ops (hide_runs ops (run_model [] ops)) 0 = None.
+Proof. exact (model_ok_ll_runs ops). Qed.
+Print Assumptions C07_model_ok_runs.
+
+(* a case with both passes that the check calls Agree: both passes equal the model's output (the
+   second wherever it shows something) and both satisfy the property oracle *)
+Theorem C07_agree_sound_ll ops observed observed_ll : c07l ops observed observed_ll = Agree ->
+  observed = run_model [] ops /\ oracle [] ops observed 0 = None /\
+  ll_shape ops observed_ll = true /\ first_diff_ll (run_model [] ops) observed_ll 0 = None /\
+  oracle_ll [] ops observed_ll 0 = None.
+Proof. exact (agree_sound_ll ops observed observed_ll). Qed.
+Print Assumptions C07_agree_sound_ll.
+
 (* ---------- non-vacuity: the hypotheses are met by concrete non-trivial objects ---------- *)
 Local Open Scope N_scope.
 
@@ -295,4 +320,42 @@ Example check_runs :
   c07 [RawSet [7] [1]; VRange (VMulti []) false None None Asc] [(AUnit, [([7], [1])]); (ARange [], [([7], [1])])] = PropFail 1 /\
   c07 [RawSet [0; 3; 103] [2]; VRange (VSingle [102; 255; 255]) false None None Asc]
       [(AUnit, [([0; 3; 103], [2])]); (APanic, [([0; 3; 103], [2])])] = PropFail 1.
+Proof. vm_compute. auto. Qed.
+
+(* long-lived views: a run remove(absent key) - set - get - remove(present key) through ONE mutable view
+   of "foo" (dump shown only after the last of them), then a run of two reads through one read-only view *)
+Definition ex_ll_ops : list op7 :=
+  [RawSet [0; 3; 102; 111; 111; 97] [1];
+   VDel (VSingle [102; 111; 111]) true [122; 122]; VSet (VSingle [102; 111; 111]) true [98] [2];
+   VGet (VSingle [102; 111; 111]) true [98]; VDel (VSingle [102; 111; 111]) true [97];
+   VRange (VSingle [102; 111; 111]) false None None Asc; VGet (VSingle [102; 111; 111]) false [97]].
+Definition ex_ll_obs : list obs7l :=
+  [(AUnit, Some [([0; 3; 102; 111; 111; 97], [1])]);
+   (AUnit, None); (AUnit, None); (AGet (Some [2]), None); (AUnit, Some [([0; 3; 102; 111; 111; 98], [2])]);
+   (ARange [([98], [2])], None); (AGet None, Some [([0; 3; 102; 111; 111; 98], [2])])].
+
+Example ll_hypotheses_met :
+  ll_shape ex_ll_ops ex_ll_obs = true /\ first_diff_ll (run_model [] ex_ll_ops) ex_ll_obs 0 = None /\
+  hide_runs ex_ll_ops (run_model [] ex_ll_ops) = ex_ll_obs /\
+  c07l ex_ll_ops (run_model [] ex_ll_ops) ex_ll_obs = Agree.
+Proof. vm_compute. auto. Qed.
+
+(* what a view object that keeps the key of a remove(absent key) in a scratch buffer shows: the next
+   set through the SAME object lands at prefix ++ "zz" ++ "b".  Every answer of the first pass and of
+   the long-lived pass up to there is the right one; the dump at the end of the run is a property
+   failure (observation 2 + 4 = the fifth of the second pass), and so is a wrong answer inside a run *)
+Example ll_check_runs :
+  let bad := [([0; 3; 102; 111; 111; 122; 122; 98], [2])] in
+  c07l ex_ll_ops (run_model [] ex_ll_ops)
+    [(AUnit, Some [([0; 3; 102; 111; 111; 97], [1])]);
+     (AUnit, None); (AUnit, None); (AGet None, None); (AUnit, Some bad);
+     (ARange [([122; 122; 98], [2])], None); (AGet None, Some bad)] = PropFail (7 + 3) /\
+  c07l ex_ll_ops (run_model [] ex_ll_ops)
+    [(AUnit, Some [([0; 3; 102; 111; 111; 97], [1])]);
+     (AUnit, None); (AUnit, None); (AGet (Some [2]), None); (AUnit, Some bad);
+     (ARange [([122; 122; 98], [2])], None); (AGet None, Some bad)] = PropFail (7 + 4) /\
+  (* a dump withheld between operations on different views is not an observation of this kind *)
+  c07l ex_ll_ops (run_model [] ex_ll_ops)
+    [(AUnit, None); (AUnit, None); (AUnit, None); (AGet (Some [2]), None); (AUnit, Some [([0; 3; 102; 111; 111; 98], [2])]);
+     (ARange [([98], [2])], None); (AGet None, Some [([0; 3; 102; 111; 111; 98], [2])])] = Disagree (7 + 7).
 Proof. vm_compute. auto. Qed.
